@@ -281,6 +281,8 @@ def getBH_level2(
     mask_reset = [max_path_len != pl for pl in path_lengths]
     reset_obj = [obj for obj, mask in zip(obj_list, mask_reset) if mask]
     reset_obj_m0 = [pl for pl, mask in zip(path_lengths, mask_reset) if mask]
+    # Rotation.from_quat renormalises: slicing the tiled orientation back is not bit-exact, keep the originals
+    reset_obj_orient = [obj._orientation for obj in reset_obj]
 
     # tiled paths are reset in the `finally` clause, also when the computation fails
     try:
@@ -406,9 +408,9 @@ def getBH_level2(
 
     finally:
         # reset tiled objects
-        for obj, m0 in zip(reset_obj, reset_obj_m0):
+        for obj, m0, orient0 in zip(reset_obj, reset_obj_m0, reset_obj_orient):
             obj._position = obj._position[:m0]
-            obj._orientation = obj._orientation[:m0]
+            obj._orientation = orient0
 
     # sumup over sources
     if sumup:
